@@ -52,6 +52,17 @@ def _span(src_lines: list[str], node: ast.AST) -> tuple[int, int]:
     return start, end
 
 
+def raw_function(repo, f):
+    """The un-normalised node of a function (edit positions refer to the real source text)."""
+    tree = repo.raw_trees.get(f.module)
+    if tree is None:
+        return f.node
+    for x in ast.walk(tree):
+        if isinstance(x, (ast.FunctionDef, ast.AsyncFunctionDef)) and x.name == f.node.name and x.lineno == f.node.lineno:
+            return x
+    return f.node
+
+
 def generate(src: str, fn: ast.AST) -> list[dict]:
     """Single-site edits inside one function: [{kind, line, old, new, start, end, logging}]."""
     lines = src.splitlines(keepends=True)
@@ -197,7 +208,7 @@ def sweep(pid: str, jobs: int = 16, limit: int | None = None, functions: list[st
         except Exception:
             continue
         src = repo.sources[f.module]
-        for m in generate(src, f.node):
+        for m in generate(src, raw_function(repo, f)):
             work.append((pid, f.module, fref, m))
     if limit:
         work = work[:limit]
@@ -297,7 +308,7 @@ def global_sweep(jobs: int = 16, props: list[str] | None = None, kinds: set[str]
             f = repo.func(fref)
         except Exception:
             continue
-        for m in generate(repo.sources[f.module], f.node):
+        for m in generate(repo.sources[f.module], raw_function(repo, f)):
             if kinds is None or m["kind"] in kinds:
                 work.append((pids, f.module, fref, m))
     with ProcessPoolExecutor(max_workers=jobs) as ex:
